@@ -1,10 +1,13 @@
 /* C02 (+C05/C06 for lists): replays ListSeq.tla scripts on one of the three list classes.
- * usage: list_replay <array|linked_list|dlinked_list> <scriptfile> [first]
+ * usage: list_replay <array|linked_list|dlinked_list>[:url-elems|:url-keys] <scriptfile> [first]
+ *   :url-elems  the stored elements are spif_url objects, the probes handed to remove/index/find/contains plain spif_str
+ *   :url-keys   the other way round.  A url IS a str and compares by its text, so the abstract sequence is the same.
  * State token: {a=[..],b={live=T|F,s=[..]},it=n}
  */
 #include "common.h"
 
 static const char *cls_name;
+static int url_elems, url_keys;
 static spif_list_t A, B;
 static spif_iterator_t IT;
 static int it_count;          /* mirror: number of next() calls that yielded, capped like the spec */
@@ -15,9 +18,11 @@ static spif_list_t new_list(void) {
     if (!strcmp(cls_name, "linked_list")) return SPIF_LIST_NEW(linked_list);
     return SPIF_LIST_NEW(dlinked_list);
 }
-static spif_obj_t mk_elem(const char *t) {
-    return SPIF_OBJ(spif_str_new_from_ptr((spif_charptr_t) t));
+static spif_obj_t mk_any(const char *t, int url) {
+    return url ? SPIF_OBJ(spif_url_new_from_ptr((spif_charptr_t) t)) : SPIF_OBJ(spif_str_new_from_ptr((spif_charptr_t) t));
 }
+static spif_obj_t mk_elem(const char *t) { return mk_any(t, url_elems); }   /* an object that goes INTO the list */
+static spif_obj_t mk_key(const char *t) { return mk_any(t, url_keys); }     /* a probe the list is searched with */
 static long elem_val(spif_obj_t o) {
     if (SPIF_OBJ_ISNULL(o)) return 0;
     return atol((const char *) SPIF_STR_STR(SPIF_STR(o)));
@@ -33,7 +38,10 @@ static const char *readback(spif_list_t L, const char *which, vh_sb *out) {
     if (n < 0 || n > 8000) { snprintf(invmsg, sizeof(invmsg), "%s:count=%ld", which, n); return invmsg; }
     sb_putc(out, '[');
     for (i = 0; i < n; i++) {
-        vals[i] = elem_val(SPIF_LIST_GET(L, (spif_listidx_t) i));
+        spif_obj_t e = SPIF_LIST_GET(L, (spif_listidx_t) i);
+        vals[i] = elem_val(e);
+        /* every element is still an object of the class it was given as (in the list and in any copy of it) */
+        if (!SPIF_OBJ_ISNULL(e) && SPIF_OBJ_CLASS(e) != (url_elems ? SPIF_CLASS_VAR(url) : SPIF_CLASS_VAR(str))) { snprintf(invmsg, sizeof(invmsg), "%s:element_class_changed_at_%ld", which, i); return invmsg; }
         if (i) sb_putc(out, ',');
         sb_int(out, vals[i]);
     }
@@ -119,7 +127,7 @@ static const char *vh_step(const vh_step_t *st, vh_sb *ret, vh_sb *state) {
         if (!r) SPIF_OBJ_DEL(e);          /* refused: the element is still the caller's */
         sb_bool(ret, r);
     } else if (OP("remove")) {
-        spif_obj_t p = mk_elem(st->args[0]), r = SPIF_LIST_REMOVE(L, p);
+        spif_obj_t p = mk_key(st->args[0]), r = SPIF_LIST_REMOVE(L, p);
         sb_int(ret, elem_val(r));
         if (!SPIF_OBJ_ISNULL(r)) SPIF_OBJ_DEL(r);   /* handed back: the caller's to delete */
         SPIF_OBJ_DEL(p);
@@ -134,15 +142,15 @@ static const char *vh_step(const vh_step_t *st, vh_sb *ret, vh_sb *state) {
     } else if (OP("get")) {
         sb_int(ret, elem_val(SPIF_LIST_GET(L, (spif_listidx_t) vh_int(st->args[0]))));
     } else if (OP("index")) {
-        spif_obj_t p = mk_elem(st->args[0]);
+        spif_obj_t p = mk_key(st->args[0]);
         sb_int(ret, (long) SPIF_LIST_INDEX(L, p));
         SPIF_OBJ_DEL(p);
     } else if (OP("find")) {
-        spif_obj_t p = mk_elem(st->args[0]);
+        spif_obj_t p = mk_key(st->args[0]);
         sb_int(ret, elem_val(SPIF_LIST_FIND(L, p)));
         SPIF_OBJ_DEL(p);
     } else if (OP("contains")) {
-        spif_obj_t p = mk_elem(st->args[0]);
+        spif_obj_t p = mk_key(st->args[0]);
         sb_bool(ret, SPIF_LIST_CONTAINS(L, p));
         SPIF_OBJ_DEL(p);
     } else if (OP("count")) {
@@ -164,6 +172,14 @@ static const char *vh_step(const vh_step_t *st, vh_sb *ret, vh_sb *state) {
         if (it_count <= n) it_count++;
     } else if (OP("iter_del")) {
         sb_bool(ret, SPIF_ITERATOR_DEL(IT)); IT = (spif_iterator_t) NULL; it_count = -1;
+    } else if (OP("iter_dup")) {
+        /* copy the iterator, delete the original, carry on with the copy */
+        spif_iterator_t c = SPIF_ITERATOR_DUP(IT);
+        if (SPIF_ITERATOR_ISNULL(c)) return "iter_dup=NULL";
+        if (c == IT) return "iter_dup_returned_same_object";
+        if (SPIF_OBJ_CLASS(c) != SPIF_OBJ_CLASS(IT)) return "iter_dup_class_differs";
+        SPIF_ITERATOR_DEL(IT); IT = c;
+        sb_bool(ret, 1);
     } else if (OP("dup")) {
         B = SPIF_LIST(SPIF_LIST_DUP(A));
         if (SPIF_LIST_ISNULL(B)) return "dup=NULL";
@@ -191,12 +207,26 @@ static const char *vh_step(const vh_step_t *st, vh_sb *ret, vh_sb *state) {
         sb_putc(state, '}');
     }
     sb_printf(state, ",it=%d}", it_count);
+    if (!SPIF_ITERATOR_ISNULL(IT)) {
+        /* the iterator's position is OBSERVED, not only mirrored: a throw-away copy of it is drained and must yield exactly
+         * the elements the iterator has not yielded yet (count - yielded of them, the right ones), then report exhaustion */
+        long n = SPIF_LIST_COUNT(A), done = it_count < n ? it_count : n, k;
+        spif_iterator_t c = SPIF_ITERATOR_DUP(IT);
+        if (SPIF_ITERATOR_ISNULL(c)) return "iterator_copy=NULL";
+        for (k = done; k < n; k++) {
+            if (!SPIF_ITERATOR_HAS_NEXT(c)) { SPIF_ITERATOR_DEL(c); snprintf(invmsg, sizeof(invmsg), "iterator_copy_exhausted_after_%ld_of_%ld_remaining", k - done, n - done); return invmsg; }
+            if (elem_val(SPIF_ITERATOR_NEXT(c)) != elem_val(SPIF_LIST_GET(A, (spif_listidx_t) k))) { SPIF_ITERATOR_DEL(c); snprintf(invmsg, sizeof(invmsg), "iterator_copy_yields_wrong_element_at_%ld", k); return invmsg; }
+        }
+        if (SPIF_ITERATOR_HAS_NEXT(c)) { SPIF_ITERATOR_DEL(c); snprintf(invmsg, sizeof(invmsg), "iterator_copy_not_exhausted_after_the_%ld_remaining", n - done); return invmsg; }
+        SPIF_ITERATOR_DEL(c);
+    }
     return NULL;
 }
 
 int main(int argc, char **argv) {
     if (argc < 3) { fprintf(stderr, "usage: %s <class> <scripts> [first]\n", argv[0]); return 2; }
     cls_name = argv[1];
+    { char *c = strchr(argv[1], ':'); if (c) { *c = 0; url_elems = !strcmp(c + 1, "url-elems"); url_keys = !strcmp(c + 1, "url-keys"); } }
     libast_set_program_name("list_replay");
     DEBUG_LEVEL = 0;
     return vh_main(argc, argv, 2);
